@@ -543,9 +543,26 @@ def bloom_image(s, b, off):
     return (all(b[off + i] == s._bloom[i] for i in range(0, n))
             and le_bytes(b, off + n, 8) == s._est_elements and le_bytes(b, off + n + 8, 8) == s._els_added
             and f32_at(b, off + n + 16) == f32(s._fpr)
-            and all(b[off + n + k] == byte_of(s._est_elements, k) for k in range(0, 8))
-            and all(b[off + n + 8 + k] == byte_of(s._els_added, k) for k in range(0, 8))
-            and all(b[off + n + 16 + k] == f32_byte(s._fpr, k) for k in range(0, 4)))
+            and b[off + n + 0] == byte_of(s._est_elements, 0)
+            and b[off + n + 1] == byte_of(s._est_elements, 1)
+            and b[off + n + 2] == byte_of(s._est_elements, 2)
+            and b[off + n + 3] == byte_of(s._est_elements, 3)
+            and b[off + n + 4] == byte_of(s._est_elements, 4)
+            and b[off + n + 5] == byte_of(s._est_elements, 5)
+            and b[off + n + 6] == byte_of(s._est_elements, 6)
+            and b[off + n + 7] == byte_of(s._est_elements, 7)
+            and b[off + n + 8] == byte_of(s._els_added, 0)
+            and b[off + n + 9] == byte_of(s._els_added, 1)
+            and b[off + n + 10] == byte_of(s._els_added, 2)
+            and b[off + n + 11] == byte_of(s._els_added, 3)
+            and b[off + n + 12] == byte_of(s._els_added, 4)
+            and b[off + n + 13] == byte_of(s._els_added, 5)
+            and b[off + n + 14] == byte_of(s._els_added, 6)
+            and b[off + n + 15] == byte_of(s._els_added, 7)
+            and b[off + n + 16] == f32_byte(s._fpr, 0)
+            and b[off + n + 17] == f32_byte(s._fpr, 1)
+            and b[off + n + 18] == f32_byte(s._fpr, 2)
+            and b[off + n + 19] == f32_byte(s._fpr, 3))
 
 
 def i32_at(b, off):
